@@ -91,6 +91,19 @@ class Fn:
             return "(" + " && ".join(parts) + ")" if len(parts) > 1 else parts[0]
         if isinstance(e, ast.IfExp):
             return f"(if {self.expr(e.test)} then {self.expr(e.body)} else {self.expr(e.orelse)})"
+        if isinstance(e, (ast.GeneratorExp, ast.ListComp)):
+            # (elt for i in range(a, b, c))  ->  map (fun i => elt) (py_range a b c)
+            if len(e.generators) != 1:
+                raise Unsupported("comprehension with several generators")
+            g = e.generators[0]
+            if g.ifs or g.is_async or not isinstance(g.target, ast.Name):
+                raise Unsupported("comprehension with a filter or a pattern target")
+            it = g.iter
+            if not (isinstance(it, ast.Call) and isinstance(it.func, ast.Name) and it.func.id == "range"
+                    and len(it.args) == 3 and not it.keywords):
+                raise Unsupported("comprehension over something other than range(a, b, c)")
+            a, b_, c = (self.expr(x) for x in it.args)
+            return f"(map (fun {g.target.id} => {self.expr(e.elt)}) (py_range {a} {b_} {c}))"
         if isinstance(e, ast.Call) and isinstance(e.func, ast.Name):
             f = e.func.id
             if f == "int" and len(e.args) == 1 and not e.keywords:
@@ -394,6 +407,29 @@ def tr_reader_pins(tree):
     return "Definition reader_source_pins : bool := true."
 
 
+def tr_partition(tree):
+    f = find(tree, "partition")
+    if [a.arg for a in f.args.args] != ["start", "stop", "step"]:
+        raise Unsupported("signature of partition")
+    fn = Fn(may_raise=False)
+    body = fn.block(f.body, {"start", "stop", "step"}, lambda d: (_ for _ in ()).throw(Unsupported("falls off the end")))
+    return ("Definition partition (start stop step : Z) : list (Z * Z) :=\n" + textwrap.indent(body, "  ") + ".")
+
+
+def tr_balance_pins(tree):
+    """chunk spans of balance_cooler and the per-chromosome spans of the cis-only loop"""
+    src = ast.unparse(find(tree, "balance_cooler"))
+    for needle in ["edges = np.arange(0, nnz + chunksize, chunksize)", "spans = list(zip(edges[:-1], edges[1:]))",
+                   "spans = [(0, nnz)]"]:
+        if needle not in src:
+            raise Unsupported("balance_cooler: pinned line changed: " + needle)
+    cis = ast.unparse(find(tree, "_balance_cisonly"))
+    for needle in ["plo, phi = (bin1_offsets[lo], bin1_offsets[hi])", "spans = list(partition(plo, phi, chunksize))"]:
+        if needle not in cis:
+            raise Unsupported("_balance_cisonly: pinned line changed: " + needle)
+    return "Definition balance_span_pins : bool := true."
+
+
 ITEMS = [
     ("core/_rangequery.py", "comes_before", lambda t: tr_cmp(t, "_comes_before", "comes_before")),
     ("core/_rangequery.py", "contains", lambda t: tr_cmp(t, "_contains", "contains")),
@@ -402,6 +438,8 @@ ITEMS = [
     ("core/_rangequery.py", "direct_tasks_one_per_span_no_reflect", tr_direct),
     ("core/_rangequery.py", "reader_source_pins", tr_reader_pins),
     ("core/_selectors.py", "process_slice", tr_process_slice),
+    ("util.py", "partition", tr_partition),
+    ("_balance.py", "balance_span_pins", tr_balance_pins),
 ]
 
 
@@ -413,7 +451,10 @@ def main():
     src_root = Path(args.repo) / "src" / "cooler"
     out = ["(** GENERATED by tools/py2v.py from src/cooler of the repository under test. Do not edit. *)",
            "From Coq Require Import ZArith List Bool.", "Import ListNotations.", "Open Scope Z_scope.", "",
-           "Module Gen.", ""]
+           "Module Gen.", "",
+           "(* range(lo, hi, step) for step >= 1 *)",
+           "Definition py_range (lo hi step : Z) : list Z :=",
+           "  map (fun k => lo + Z.of_nat k * step) (seq 0 (Z.to_nat ((hi - lo + step - 1) / step))).", ""]
     failures = []
     trees = {}
     for rel, name, fn in ITEMS:
